@@ -168,8 +168,29 @@ def reconnect(chk: Check, repo: Repo) -> None:
                 flags.append(n.ast.targets[0].attr)
     flag = flags[0] if len(flags) == 1 else None
     chk.ob("user-disconnect-is-flagged-before-it-yields", dcf.site(), flag is not None, f"disconnect() sets {['self.' + f for f in flags]} = True before its first await" if flag else "disconnect() raises no flag before it awaits the DisconnectResponse: a server DisconnectRequest, heartbeat failure or failed send in that window calls _tunnel_lost(), which cannot tell that the user is disconnecting and starts a reconnect (a ConnectRequest is sent after the user disconnected)", key="disconnect-flag")
-    for disc, auto, task, transport, channel in product((False, True), (False, True), ("none", "running", "finished"), (False, True), (False, True)):
-        if disc and flag is None:
+    # the flag connect() raises while it is pending (no tunnel to lose yet: the attempt reports its own failure)
+    cnf = repo.func(T, "_Tunnel.connect")
+    ccfg = CFG(cnf.node)
+    c_awaits = [n.id for n in ccfg.nodes if n.ast is not None and n.kind in ("stmt", "test", "with") and any(isinstance(x, ast.Await) for x in ast.walk(n.ast))]
+    cflags = []
+    for n in ccfg.nodes:
+        if n.kind == "stmt" and isinstance(n.ast, ast.Assign) and len(n.ast.targets) == 1 and isinstance(n.ast.targets[0], ast.Attribute) and ast.unparse(n.ast.targets[0].value) == "self" and isinstance(n.ast.value, ast.Constant) and n.ast.value.value is True:
+            if c_awaits and all(ccfg.dominates(n.id, a) for a in c_awaits):
+                cflags.append(n.ast.targets[0].attr)
+    cflag = cflags[0] if len(cflags) == 1 else None
+    cleared = cflag is not None and any(isinstance(t, ast.Try) and any(isinstance(x, ast.Assign) and ast.unparse(x.targets[0]) == f"self.{cflag}" and isinstance(x.value, ast.Constant) and x.value.value is False for x in t.finalbody) for t in walk_local(cnf.node))
+    chk.ob("pending-connect-is-flagged", cnf.site(), cflag is not None and cleared, f"connect() sets self.{cflag} = True before its first await and clears it in `finally`" if cflag and cleared else "connect() raises no flag while it is pending (or does not clear it on every exit): a transport loss during the attempt (gateway closes the TCP connection on the ConnectRequest) makes _tunnel_lost() start a reconnect task next to the pending connect() — two connection attempts at once, and a reconnect loop nobody owns once connect() raises", key="connect-flag")
+    # a user disconnect arriving while connect() is suspended is honoured: the disconnect flag is re-tested after the
+    # transport is up (before the ConnectRequest) and after the ConnectResponse (before the tunnel is declared established)
+    if flag is not None:
+        def nodes_calling(name: str) -> list[int]:
+            return [n.id for n in ccfg.nodes if n.ast is not None and n.kind == "stmt" and any(call_name(c) == name for c in calls(n.ast))]
+        tests = [n.id for n in ccfg.nodes if n.kind == "test" and n.ast is not None and ast.unparse(n.ast) in (f"self.{flag}", f"not self.{flag}")]
+        tc, cr, est = nodes_calling("self.transport.connect"), nodes_calling("self._connect_request"), nodes_calling("self._tunnel_established")
+        ok_h = bool(tc) and bool(cr) and bool(est) and ccfg.all_paths_hit(tc[0], tests, cr, edge_ok=ccfg.normal_only, include_start=False) and ccfg.all_paths_hit(cr[0], tests, est, edge_ok=ccfg.normal_only, include_start=False)
+        chk.ob("disconnect-during-connect-is-honoured", cnf.site(), ok_h, f"connect() re-tests self.{flag} between the transport connect and the ConnectRequest, and between the ConnectResponse and _tunnel_established" if ok_h else f"connect() clears self.{flag} on entry and does not test it again after its awaits: a disconnect() issued while connect() waits for the TCP handshake / ConnectResponse is forgotten — the ConnectRequest goes out and the tunnel reports CONNECTED after the user disconnected", key="connect-honours-disconnect")
+    for disc, conn_, auto, task, transport, channel in product((False, True), (False, True), (False, True), ("none", "running", "finished"), (False, True), (False, True)):
+        if (disc and flag is None) or (conn_ and cflag is None) or (disc and conn_):
             continue
 
         def cm(c, env, task=task):
@@ -194,10 +215,12 @@ def reconnect(chk: Check, repo: Repo) -> None:
         env = {"self.auto_reconnect": auto, "self._reconnect_task": old, "self.transport.transport": Obj("Transport", "t") if transport else None, "self.communication_channel": 7 if channel else None}
         if flag is not None:
             env[f"self.{flag}"] = disc
+        if cflag is not None:
+            env[f"self.{cflag}"] = conn_
         paths = Explorer(cfg, repo, am.step).run(cfg.entry, [], env)
         got = {(tuple(p.env.get("trace", ())), repr(p.env.get("self._reconnect_task"))) for p in paths}
-        if disc:
-            want = {((), repr(old))}  # the user is disconnecting: disconnect() tears down; nothing is started or sent here
+        if disc or conn_:
+            want = {((), repr(old))}  # the user is disconnecting (disconnect() tears down) / a connect() is pending (it reports its own failure): nothing is started or sent here
         elif auto:
             if task == "running":
                 want = {((), repr(old))}
@@ -206,7 +229,7 @@ def reconnect(chk: Check, repo: Repo) -> None:
         else:
             tr = ("PREPARE_DISCONNECT",) + ((("SEND_DISCONNECT_REQUEST",) if channel else ()) + ("TRANSPORT_STOP",) if transport else ())
             want = {(tr, repr(old))}
-        chk.ob("tunnel-lost-cell", tl.site(), got == want, f"user_disconnecting={disc} auto_reconnect={auto} reconnect_task={task} transport={transport} channel={channel}: {sorted(map(str, got))}; reference {sorted(map(str, want))}", key=f"lost|{disc}|{auto}|{task}|{transport}|{channel}" + ("" if got == want else f"|{sorted(map(str, got))}"))
+        chk.ob("tunnel-lost-cell", tl.site(), got == want, f"user_disconnecting={disc} connect_pending={conn_} auto_reconnect={auto} reconnect_task={task} transport={transport} channel={channel}: {sorted(map(str, got))}; reference {sorted(map(str, want))}", key=f"lost|{disc}|{conn_}|{auto}|{task}|{transport}|{channel}" + ("" if got == want else f"|{sorted(map(str, got))}"))
     # cleanup callback resets the slot — only if it still holds the task that finished (a newer task may be there)
     nested = repo.nested_functions(tl)
     ok = False
